@@ -225,7 +225,62 @@ class TableSim:
                     got = getattr(self.table, name).get_one(key, allow_none=True)
                     if got is not o:
                         problems.append(f'{name}.get_one({key!r}) returns {got!r}, scan finds {o!r}')
+        # every key any object of the pool could have (also keys nothing in the table has any more): get_one / get answer
+        # from the stored objects only - an answer remembered from an earlier call must not survive a change of the table
+        for name, idx in self.table._idx_defs.items():
+            all_keys = set()
+            scan = {}
+            for o in self.objs:
+                for vals in self._possible_keys(idx, o):
+                    all_keys.add(vals)
+            for i in self.members:
+                o = self.objs[i]
+                try:
+                    k = idx._get_key_func(o)
+                except (TypeError, AttributeError):
+                    continue
+                ks = k if isinstance(k, list) else [k]
+                for kk in ks:
+                    if kk is None and not idx._index_none_values:
+                        continue
+                    scan.setdefault(kk, []).append(o)
+            for key in sorted(all_keys, key=repr):
+                want = scan.get(key, [])
+                try:
+                    got = getattr(self.table, name).get_one(key, allow_none=True)
+                    outcome = ('one', got)
+                except ValueError:
+                    outcome = ('several', None)
+                except Exception as ex:  # noqa: BLE001
+                    outcome = ('raised', repr(ex)[:60])
+                if len(want) == 0 and outcome != ('one', None):
+                    problems.append(f'{name}.get_one({key!r}) answers {outcome} although no stored object has that key')
+                elif len(want) == 1 and not (outcome[0] == 'one' and outcome[1] is want[0]):
+                    problems.append(f'{name}.get_one({key!r}) answers {outcome}, scan finds exactly {want[0]!r}')
+                elif len(want) > 1 and outcome[0] != 'several':
+                    problems.append(f'{name}.get_one({key!r}) answers {outcome} although {len(want)} stored objects have that key')
         return problems
+
+    def _possible_keys(self, idx, o):
+        """Keys the index function can produce for o over the attribute domains (found by trying the domain values)."""
+        out = set()
+        saved = {a: getattr(o, a) for a in self.domains}
+        try:
+            for attr, values in self.domains.items():
+                for v in values:
+                    setattr(o, attr, _copy(v))
+                    try:
+                        k = idx._get_key_func(o)
+                    except (TypeError, AttributeError):
+                        continue
+                    for kk in (k if isinstance(k, list) else [k]):
+                        if kk is not None and not isinstance(kk, list):
+                            out.add(kk)
+                setattr(o, attr, saved[attr])
+        finally:
+            for a, v in saved.items():
+                setattr(o, a, v)
+        return out
 
     def key(self):
         names = sorted(self.domains)
